@@ -14,6 +14,7 @@ import (
 	"github.com/lightninglabs/neutrino"
 	"github.com/lightninglabs/neutrino/banman"
 	"github.com/lightninglabs/neutrino/blockntfns"
+	"github.com/lightninglabs/neutrino/headerfs"
 
 	"verif/internal/chaingen"
 	"verif/internal/netsim"
@@ -34,19 +35,19 @@ type Ban struct {
 // rollback, which announces a disconnect), a disconnected header is no longer
 // stored at its height (it cannot come back within the step).
 type EventObs struct {
-	Connected    bool
-	Height       uint32
-	Header       wire.BlockHeader
-	NewTip       wire.BlockHeader // for disconnects: header of the tip afterwards
-	BlockTipAt   uint32           // block store tip height read after receipt (informational)
-	StillStored  bool             // (disconnected) the block store still holds Header at Height after receipt
+	Connected   bool
+	Height      uint32
+	Header      wire.BlockHeader
+	NewTip      wire.BlockHeader // for disconnects: header of the tip afterwards
+	BlockTipAt  uint32           // block store tip height read after receipt (informational)
+	StillStored bool             // (disconnected) the block store still holds Header at Height after receipt
 	// MidProbe is the result of a backlog probe made right after this
 	// connected event was received, i.e. in the middle of a batch ("" = not
 	// probed or fine).
-	MidProbe string
-	FilterTipAt  uint32           // filter store tip height at receipt
-	FilterHasIt  bool             // (connected) filter store already holds a header at Height
-	BlockAtMatch bool             // (connected) block store's header at Height equals Header
+	MidProbe     string
+	FilterTipAt  uint32 // filter store tip height at receipt
+	FilterHasIt  bool   // (connected) filter store already holds a header at Height
+	BlockAtMatch bool   // (connected) block store's header at Height equals Header
 }
 
 // StepObs is everything the monitors see about one driver step.
@@ -76,6 +77,7 @@ type Session struct {
 	G      *chaingen.Gen
 	Stores *Stores
 	BM     *neutrino.VerifBlockManager
+	hooked *hookedBlockStore
 	Clock  *Clock
 	Log    *netsim.Log
 	Peers  []*SimPeer
@@ -138,9 +140,10 @@ func (s *Session) Open() error {
 	}
 	s.Stores = st
 	s.Net = newScriptNet(s)
+	s.hooked = &hookedBlockStore{BlockHeaderStore: st.Block}
 	bm, err := neutrino.VerifNewBlockManager(&neutrino.VerifBlockManagerConfig{
 		ChainParams:      *s.G.P,
-		BlockHeaders:     st.Block,
+		BlockHeaders:     s.hooked,
 		RegFilterHeaders: st.Filter,
 		TimeSource:       s.Clock,
 		QueryDispatcher:  s.Net,
@@ -446,4 +449,32 @@ func (s *Session) midProbe(evHeight uint32) string {
 		}
 	}
 	return ""
+}
+
+// hookedBlockStore is the block header store as the block manager sees it: the
+// real store, plus a hook that runs right after FetchHeaderAncestors returned
+// (the look-up writeCFHeadersMsg makes for the blocks a filter-header batch
+// covers). What happens in the hook happens, for the block manager, between
+// that look-up and whatever it does next.
+type hookedBlockStore struct {
+	headerfs.BlockHeaderStore
+	mu             sync.Mutex
+	afterAncestors func()
+}
+
+func (h *hookedBlockStore) setAfterAncestors(f func()) {
+	h.mu.Lock()
+	h.afterAncestors = f
+	h.mu.Unlock()
+}
+
+func (h *hookedBlockStore) FetchHeaderAncestors(n uint32, stop *chainhash.Hash) ([]wire.BlockHeader, uint32, error) {
+	hdrs, start, err := h.BlockHeaderStore.FetchHeaderAncestors(n, stop)
+	h.mu.Lock()
+	f := h.afterAncestors
+	h.mu.Unlock()
+	if f != nil && err == nil {
+		f()
+	}
+	return hdrs, start, err
 }
